@@ -221,6 +221,7 @@ fn main() {
     };
     let fragment = args.iter().position(|a| a == "--fragment").and_then(|i| args.get(i + 1)).map(PathBuf::from);
     let ctx = Ctx { id: id.clone(), tier, seed, threads, known: runner::load_known(&verif_dir), verif_dir: verif_dir.clone(), start: Instant::now(), scale, fragment };
+    runner::set_known(&id, &ctx.known);
     if supervisor::SUPERVISED.contains(&id.as_str()) && ctx.fragment.is_none() {
         // regression corpus first (seconds), then the supervised workers
         let rc = regress(&id, &verif_dir);
